@@ -471,6 +471,42 @@ edit('std/algebra/emulated/sw_bls12381/g2.go',[('''	s1bits := g2.fr.ToBits(s1)
 	}
 ''')])
 save('benign-bitscover-repair','C16','std/algebra/emulated/sw_bls12381/g2.go','the unread high bits of the GLV sub-scalars asserted zero (the repair of F11-S4): the two BITS-COVER findings of this function disappear and nothing else fires')
+rw='frontend/schema/internal/reflectwalk/reflectwalk.go'
+m('walkbalance-slice-exit','C07',['WALK-BALANCE'],rw,'''		if ok {
+			ew.Exit(SliceElem)
+		}
+''','',note='the slice-element frame pushed by SliceElem is never popped')
+m('walkbalance-exit-pop','C07',['WALK-BALANCE'],'frontend/schema/walk.go','''	if l == reflectwalk.StructField || l == reflectwalk.ArrayElem || l == reflectwalk.SliceElem {''','''	if l == reflectwalk.StructField || l == reflectwalk.ArrayElem {''',note='Exit no longer pops the frames of slice elements')
+m('walkbalance-push-on-skip','C07',['WALK-BALANCE'],'frontend/schema/walk.go','''	if ok && tag == string(TagOptOmit) {
+		return reflectwalk.ErrSkipEntry // skipping "-"
+	}
+''','''	if ok && tag == string(TagOptOmit) {
+		w.path.push(LeafInfo{name: sf.Name, Visibility: w.visibility()})
+		return reflectwalk.ErrSkipEntry // skipping "-"
+	}
+''',note='an omitted field leaves its frame on the path stack')
+edit(rw,[('''		ew, ok := w.(EnterExitWalker)
+		if ok {
+			ew.Enter(SliceElem)
+		}
+''','''		if ok {
+			ew.Enter(SliceElem)
+		}
+'''),('''			if sf.Anonymous { // TODO @gbotrel check this
+				err = walk(f, w)
+				if err != nil && err != ErrSkipEntry {
+					return
+				}
+				continue
+			}
+''','''			if sf.Anonymous { // TODO @gbotrel check this
+				if err = walk(f, w); err == nil || err == ErrSkipEntry {
+					continue
+				}
+				return
+			}
+''')])
+save('benign-walkbalance-hoist','C07',rw,'the EnterExitWalker assertion of walkSlice hoisted out of the loop, the embedded-field branch of walkStruct rewritten with the inverse condition')
 json.dump({'comment':'selftest mutants: each patch breaks one rule instance and must be detected by the listed rule(s) of its property; produced by tools/make_selftest.py','mutants':M}, open(os.path.join(root,'selftest','mutants.json'),'w'), indent=1)
 subprocess.run(['git','-C','/repo','worktree','remove','--force',WT],capture_output=True)
 print(len(M),'mutants')
